@@ -38,7 +38,10 @@ Qed.
 Theorem fetch_chain_bounded : forall rc r,
   initial_req rc = Some r ->
   (List.length (fst (chain (rc_ver rc) (rc_url rc) r (rc_script rc))) <=
-   S (Z.to_nat (match rc_maxred rc with Some z => z | None => 5%Z end)))%nat.
+   S (Z.to_nat (match rc_maxred rc with
+                | Some z => z
+                | None => match rc_defmax rc with Some d => d | None => 5%Z end
+                end)))%nat.
 Proof.
   intros rc r Hi. pose proof (proj1 (chain_length (rc_ver rc) (rc_url rc) (rc_script rc) r)) as H.
   unfold initial_req in Hi. destruct (rc_dict rc); [inversion Hi; subst; clear Hi; exact H|].
@@ -53,7 +56,7 @@ Qed.
 Definition ex_rc : rcase :=
   mkRCase (T "6.6") (T "http://a.test/x") (T "GET") None
           [(T "Cookie", T "a=1"); (T "cookie", T "b=2"); (T "Authorization", T "tok")] false
-          None None None None None
+          None None None None None None
           [mkHop 302 true (T "http://b.test/y")].
 
 Definition ex_multi_cookie :=
@@ -92,7 +95,7 @@ Definition ex_post_303 :=
   | (RUnit, h) =>
       match redirect_request (T "http://u:p@a.test/x")
               (mkReq (T "http://u:p@a.test/x") (T "POST") (Some [104; 105]) h (Some (T "me")) (Some (T "pw"))
-                     (Some 2%Z) None None)
+                     (Some 2%Z) None None None)
               (set_item (T "Host") (T "a.test") (set_item (T "Content-Length") (T "2") h))
               303 (T "https://x:y@a.test:8443/z") with
       | FRedirect r' =>
